@@ -239,12 +239,12 @@ RT_CONFIGS_QUICK = [
      'sizes': [0x8000, 0x8000, 0x40000, 0x100000]},
 ]
 RT_CONFIGS_THOROUGH = RT_CONFIGS_QUICK + [
-    {'name': 'local', 'opts': ['--pika:ini=pika.stacks.use_guard_pages=1', '--pika:threads=4', '--pika:queuing=local'], 'guard': True},
-    {'name': 'static-priority', 'opts': ['--pika:ini=pika.stacks.use_guard_pages=1', '--pika:threads=4', '--pika:queuing=static-priority'], 'guard': True},
-    {'name': 'abp', 'opts': ['--pika:ini=pika.stacks.use_guard_pages=1', '--pika:threads=4', '--pika:queuing=abp-priority-fifo'], 'guard': True},
-    {'name': 'lifo', 'opts': ['--pika:ini=pika.stacks.use_guard_pages=1', '--pika:threads=4', '--pika:queuing=local-priority-lifo'], 'guard': True},
-    {'name': 'shared', 'opts': ['--pika:ini=pika.stacks.use_guard_pages=1', '--pika:threads=4', '--pika:queuing=shared-priority'], 'guard': True},
-    {'name': 'static2', 'opts': ['--pika:threads=2', '--pika:queuing=static'], 'guard': False,
+    {'name': 'local', 'opts': ['--pika:ini=pika.stacks.use_guard_pages=1', '--pika:threads=4', '--pika:scheduler=local'], 'guard': True},
+    {'name': 'static-priority', 'opts': ['--pika:ini=pika.stacks.use_guard_pages=1', '--pika:threads=4', '--pika:scheduler=static-priority'], 'guard': True},
+    {'name': 'abp', 'opts': ['--pika:ini=pika.stacks.use_guard_pages=1', '--pika:threads=4', '--pika:scheduler=abp-priority-fifo'], 'guard': True},
+    {'name': 'lifo', 'opts': ['--pika:ini=pika.stacks.use_guard_pages=1', '--pika:threads=4', '--pika:scheduler=local-priority-lifo'], 'guard': True},
+    {'name': 'shared', 'opts': ['--pika:ini=pika.stacks.use_guard_pages=1', '--pika:threads=4', '--pika:scheduler=shared-priority'], 'guard': True},
+    {'name': 'static2', 'opts': ['--pika:threads=2', '--pika:scheduler=static'], 'guard': False,
      'extra': ['--pika:ini=pika.stacks.use_guard_pages=0']},
     {'name': 'eight', 'opts': ['--pika:ini=pika.stacks.use_guard_pages=1', '--pika:threads=8'], 'guard': True},
 ]
@@ -291,6 +291,11 @@ def run_swap(ctx, r, drv, h, seed, n_sw, n_cx, budget):
             small = all(len(v) <= 1 for v in p[4].split(',')[:4])
             r.count('SW:small_values' if small else 'SW:random64')
             r.nontrivial(x[:200])
+            if k[1] == '1':
+                fo = fields(omap[k])
+                r.notes.append('replay of the Coq witness of C12_fp_control_preserved_refuted on the real routine: A had '
+                               'MXCSR=%s CW=%s, after A->B->A it observes MXCSR=%s CW=%s'
+                               % (p[6], p[7], fo.get('mx'), fo.get('cw')))
             for sig, txt in sw_monitor(x, omap[k]):
                 r.hits.append(Hit('monitor', 'C12:' + sig, 'swapcontext (real routine, direct call): ' + txt,
                                   dict(args, case=x, observed=omap[k])))
@@ -411,13 +416,13 @@ def run(ctx):
             cfgs = [x for x in RT_CONFIGS_THOROUGH if x['name'] == rep.get('config')] or [RT_CONFIGS_QUICK[0]]
             run_rt(ctx, r, drv, h_rt, int(c[0]), int(c[1]), int(c[2]), cfgs[0], 600)
             return r
-    run_swap(ctx, r, drv, h_sw, ctx.seed, 3000 if quick else 40000, 60 if quick else 1500, 300 if quick else 2400)
+    run_swap(ctx, r, drv, h_sw, ctx.seed, 3000 if quick else 150000, 60 if quick else 4000, 300 if quick else 3000)
     tot = rec = dirty = mig = 0
     cfgs = RT_CONFIGS_QUICK if quick else RT_CONFIGS_THOROUGH
-    seeds = [ctx.seed] if quick else [ctx.seed + 1000 * k for k in range(3)]
+    seeds = [ctx.seed] if quick else [ctx.seed + 1000 * k for k in range(5)]
     for sd in seeds:
         for cfg in cfgs:
-            n, a, b, c = run_rt(ctx, r, drv, h_rt, sd, 5 if quick else 12, 100, cfg, 120 if quick else 400)
+            n, a, b, c = run_rt(ctx, r, drv, h_rt, sd, 5 if quick else 15, 100, cfg, 120 if quick else 400)
             tot, rec, dirty, mig = tot + n, rec + a, dirty + b, mig + c
     r.notes.append('runtime: %d tasks, %d on recycled objects (%d after a dirty predecessor), %d migrated' % (tot, rec, dirty, mig))
     if tot and (rec == 0 or dirty == 0 or mig == 0):
